@@ -67,7 +67,7 @@ def strategy(tier):
 
 
 def examples(tier):
-    return 1600 if tier == "quick" else 8000
+    return 1600 if tier == "quick" else 80000
 
 
 FIXED = [
